@@ -554,6 +554,14 @@ pub fn run(env: &Env) -> i32 {
     cov.insert("modes".into(), json!(modes));
     cov.insert("fault_kinds_configured".into(), json!(configured));
     cov.insert("fault_kinds_fired".into(), json!(fired));
+    {
+        let mode_list: Vec<(&str, usize)> = modes.iter().map(|(k, v)| (*k, *v)).collect();
+        let mut probes = mode_list.clone();
+        probes.push(("time box fired (clock stall)", fired.get("clock-stall").copied().unwrap_or(0)));
+        probes.push(("fs errno fired", fired.iter().filter(|(k, _)| k.starts_with("open:") || k.starts_with("read:") || k.starts_with("realpath:")).map(|(_, v)| *v).sum::<usize>()));
+        probes.push(("SARIF create/write fault fired", fired.iter().filter(|(k, _)| k.starts_with("create:") || k.starts_with("write:")).map(|(_, v)| *v).sum::<usize>()));
+        crate::report::add_probes(&mut cov, &probes);
+    }
     cov.insert("simulated_seconds".into(), json!((sim_ns / 1_000_000_000) as i64));
     cov.insert("clock_reads".into(), json!(clock_reads));
     cov.insert("runs_per_hour".into(), json!((n as f64 / wall * 3600.0) as u64));
